@@ -16,4 +16,6 @@ var Checks = map[string]func(*core.Env){
 	"C17": C17,
 	"C13": C13,
 	"C14": C14,
+	"C06": C06,
+	"C10": C10,
 }
